@@ -1,6 +1,7 @@
 (* C14, trapezoidal velocity profile, planning layer: a_trajtrap_gen returning t > 0 on a feasible request produces a
    well-formed context (one lemma per planning branch), and every division / sqrt on the executed path is defined. *)
 From Coq Require Import Reals ZArith List Lra Lia Bool Psatz.
+From Coquelicot Require Import Rcomplements.
 From LibaV Require Import Common.NumOps Common.ROps C14.TrapDefs C14.TrapProofs.
 Import ListNotations.
 Local Open Scope R_scope.
@@ -13,12 +14,285 @@ Definition clampR (v vm : R) : R := sat R_ops v (- Rabs vm) (Rabs vm).
 Lemma abs_if vm : (if Rltb vm 0 then - vm else vm) = Rabs vm.
 Proof. destruct (Rltb_spec vm 0); [rewrite Rabs_left|rewrite Rabs_right]; lra. Qed.
 
-Goal forall c0 vm ac de p0 p1 v0 v1, vm <> 0 -> trap_feasible ac de p0 p1 ->
-  0 < snd (fst (trap_gen_b R_ops c0 vm ac de p0 p1 v0 v1)) -> False.
+Ltac gen_unfold :=
+  cbv beta zeta iota delta [trap_gen_b t_set_t t_set_p0 t_set_p1 t_set_v0 t_set_v1 t_set_vc t_set_ta t_set_td t_set_pa
+                            t_set_pd t_set_ac t_set_de t_t t_p0 t_p1 t_v0 t_v1 t_vc t_ta t_td t_pa t_pd t_ac t_de].
+
+
+Lemma clamp_range v vm : - Rabs vm <= clampR v vm <= Rabs vm.
+Proof. unfold clampR. apply sat_range. pose proof (Rabs_pos vm). lra. Qed.
+
+
+(* direction of travel: the sign of the cruise/peak velocity and of the two accelerations *)
+Definition dirn (V vc ac de p : R) : Prop :=
+  (vc = V /\ 0 < ac /\ de < 0 /\ 0 <= p) \/ (vc = - V /\ ac < 0 /\ 0 < de /\ p < 0).
+
+Lemma div_sign_nonneg a b : b <> 0 -> 0 <= a * b -> 0 <= a / b.
 Proof.
-  intros c0 vm ac de p0 p1 v0 v1 Hvm Hf.
-  cbv beta zeta delta [trap_gen_b]. unfold_ops. rewrite !half_R. rewrite !abs_if.
+  intros Hb H. replace (a / b) with ((a * b) * / (b * b)) by (field; assumption).
+  apply Rmult_le_pos; [assumption|]. left. apply Rinv_0_lt_compat. nra.
+Qed.
+
+Lemma div_sign_pos a b : b <> 0 -> 0 < a * b -> 0 < a / b.
+Proof.
+  intros Hb H. replace (a / b) with ((a * b) * / (b * b)) by (field; assumption).
+  apply Rmult_lt_0_compat; [assumption|]. apply Rinv_0_lt_compat. nra.
+Qed.
+
+(* ---- branch 1: acceleration, constant velocity, deceleration *)
+Lemma cruise_alg V vc ac de p0 p1 w0 w1 :
+  dirn V vc ac de (p1 - p0) -> 0 < V -> - V <= w0 <= V -> - V <= w1 <= V ->
+  V * V < (w1 * w1 * ac - w0 * w0 * de - 2 * (p1 - p0) * ac * de) / (ac - de) ->
+  let ta := (vc - w0) / ac in
+  let tdu := (w1 - vc) / de in
+  let pa := p0 + w0 * ta + / 2 * ac * ta * ta in
+  let pd := p1 - vc * tdu - / 2 * de * tdu * tdu in
+  let td := ta + (pd - pa) / vc in
+  let t := tdu + td in
+  0 <= ta /\ ta <= td /\ td <= t /\ vc = w0 + ac * ta /\ pa = p0 + w0 * ta + ac * ta² / 2 /\
+  pd = pa + vc * (td - ta) /\ w1 = vc + de * (t - td) /\ p1 = pd + vc * (t - td) + de * (t - td)² / 2 /\
+  Rabs vc <= V.
+Proof.
+  intros Hd HV Hw0 Hw1 Hvc2. intros.
+  set (N := w1 * w1 * ac - w0 * w0 * de - 2 * (p1 - p0) * ac * de) in *.
+  assert (Hne : ac <> 0 /\ de <> 0 /\ ac - de <> 0 /\ vc <> 0) by (destruct Hd as [(?&?&?&?)|(?&?&?&?)]; subst; repeat split; lra).
+  destruct Hne as (Hac & Hde & Hacde & Hvc).
+  assert (HN : N = (N / (ac - de)) * (ac - de)) by (field; assumption).
+  set (q := N / (ac - de)) in *.
+  assert (Hgap : pd - pa = (N - vc * vc * (ac - de)) / (- 2 * ac * de)).
+  { unfold pd, pa, tdu, ta, N. field. repeat split; assumption. }
+  assert (Hta : 0 <= ta).
+  { unfold ta. apply div_sign_nonneg; [assumption|]. destruct Hd as [(?&?&?&?)|(?&?&?&?)]; subst; nra. }
+  assert (Htdu : 0 <= tdu).
+  { unfold tdu. apply div_sign_nonneg; [assumption|]. destruct Hd as [(?&?&?&?)|(?&?&?&?)]; subst; nra. }
+  assert (Hcr : 0 <= (pd - pa) / vc).
+  { apply div_sign_nonneg; [assumption|]. rewrite Hgap.
+    assert (0 < - 2 * ac * de) by (destruct Hd as [(?&?&?&?)|(?&?&?&?)]; nra).
+    replace ((N - vc * vc * (ac - de)) / (-2 * ac * de) * vc) with (((N - vc * vc * (ac - de)) * vc) / (-2 * ac * de)) by (field; lra).
+    apply Rmult_le_pos; [|left; apply Rinv_0_lt_compat; assumption].
+    destruct Hd as [(?&?&?&?)|(?&?&?&?)]; subst vc.
+    - assert (0 < ac - de) by lra. assert (0 < (q - V * V) * (ac - de)) by (apply Rmult_lt_0_compat; lra). nra.
+    - assert (0 < de - ac) by lra. assert (0 < (q - V * V) * (de - ac)) by (apply Rmult_lt_0_compat; lra). nra. }
+  repeat split.
+  - exact Hta.
+  - unfold td. lra.
+  - unfold t. lra.
+  - unfold ta. field. assumption.
+  - unfold pa, Rsqr. field.
+  - unfold td. field. assumption.
+  - unfold t, tdu. field. assumption.
+  - unfold t, pd, Rsqr. field.
+  - destruct Hd as [(?&?&?&?)|(?&?&?&?)]; subst vc; [rewrite Rabs_right|rewrite Rabs_left]; lra.
+Qed.
+
+Lemma sq_le_le r V : 0 <= r -> 0 < V -> r * r <= V * V -> r <= V.
+Proof. intros. nra. Qed.
+
+Lemma sq_ge_abs r w : 0 <= r -> w * w <= r * r -> - r <= w <= r.
+Proof. intros. split; nra. Qed.
+
+(* ---- branch 2: acceleration only (the requested final speed is out of reach; the reached one is recorded) *)
+Lemma acc_alg V vf ac de p0 p1 w0 w1 :
+  let D := w0 * w0 + 2 * (p1 - p0) * ac in
+  let vc2 := (w1 * w1 * ac - w0 * w0 * de - 2 * (p1 - p0) * ac * de) / (ac - de) in
+  dirn (R_sqrt.sqrt D) vf ac de (p1 - p0) -> 0 < V -> - V <= w0 <= V -> - V <= w1 <= V ->
+  ~ V * V < vc2 -> vc2 <= w1 * w1 -> ~ D < 0 ->
+  let t := (vf - w0) / ac in
+  let pa := p0 + w0 * t + / 2 * ac * t * t in
+  0 <= t /\ vf = w0 + ac * t /\ pa = p0 + w0 * t + ac * t² / 2 /\ p1 = pa /\ Rabs vf <= V.
+Proof.
+  intros D vc2 Hd HV Hw0 Hw1 Hc1 Hc3 Hc4. intros.
+  assert (Hne : ac <> 0 /\ de <> 0 /\ ac - de <> 0) by (destruct Hd as [(?&?&?&?)|(?&?&?&?)]; repeat split; lra).
+  destruct Hne as (Hac & Hde & Hacde).
+  assert (HD : 0 <= D) by lra.
+  pose proof (sqrt_pos D) as Hr0. pose proof (sqrt_sqrt D HD) as Hrr.
+  set (r := R_sqrt.sqrt D) in *.
+  set (N := w1 * w1 * ac - w0 * w0 * de - 2 * (p1 - p0) * ac * de) in *.
+  assert (HN : N = vc2 * (ac - de)) by (unfold vc2; field; assumption).
+  assert (HND : N = w1 * w1 * ac - de * D) by (unfold N, D; ring).
+  assert (HDle : D <= vc2).
+  { destruct Hd as [(?&?&?&?)|(?&?&?&?)]; nra. }
+  assert (Hff : vf * vf = D) by (destruct Hd as [(?&?&?&?)|(?&?&?&?)]; subst vf; nra).
+  repeat split.
+  - unfold t. apply div_sign_nonneg; [assumption|].
+    assert (- r <= w0 <= r) by (apply sq_ge_abs; [assumption|]; rewrite Hrr; unfold D; destruct Hd as [(?&?&?&?)|(?&?&?&?)]; nra).
+    destruct Hd as [(?&?&?&?)|(?&?&?&?)]; subst vf; nra.
+  - unfold t. field. assumption.
+  - unfold pa, Rsqr. field.
+  - unfold pa, t. apply Rminus_diag_uniq.
+    replace (p1 - (p0 + w0 * ((vf - w0) / ac) + / 2 * ac * ((vf - w0) / ac) * ((vf - w0) / ac)))
+      with ((D - vf * vf) / (2 * ac)) by (unfold D; field; assumption).
+    rewrite Hff. field. assumption.
+  - assert (r <= V) by (apply sq_le_le; lra).
+    destruct Hd as [(?&?&?&?)|(?&?&?&?)]; subst vf; apply Rabs_le; lra.
+Qed.
+
+(* ---- branch 3: deceleration only *)
+Lemma dec_alg V vf ac de p0 p1 w0 :
+  let D := w0 * w0 + 2 * (p1 - p0) * de in
+  dirn (R_sqrt.sqrt D) vf ac de (p1 - p0) -> 0 < V -> - V <= w0 <= V -> ~ D < 0 ->
+  let t := (vf - w0) / de in
+  vf = w0 + de * t /\ p1 = p0 + w0 * t + de * t² / 2 /\ Rabs vf <= V.
+Proof.
+  intros D Hd HV Hw0 Hc4. intros.
+  assert (Hne : ac <> 0 /\ de <> 0 /\ ac - de <> 0) by (destruct Hd as [(?&?&?&?)|(?&?&?&?)]; repeat split; lra).
+  destruct Hne as (Hac & Hde & Hacde).
+  assert (HD : 0 <= D) by lra.
+  pose proof (sqrt_pos D) as Hr0. pose proof (sqrt_sqrt D HD) as Hrr.
+  set (r := R_sqrt.sqrt D) in *.
+  assert (Hff : vf * vf = D) by (destruct Hd as [(?&?&?&?)|(?&?&?&?)]; subst vf; nra).
+  repeat split.
+  - unfold t. field. assumption.
+  - unfold t, Rsqr. apply Rminus_diag_uniq.
+    replace (p1 - (p0 + w0 * ((vf - w0) / de) + de * (((vf - w0) / de) * ((vf - w0) / de)) / 2))
+      with ((D - vf * vf) / (2 * de)) by (unfold D; field; assumption).
+    rewrite Hff. field. assumption.
+  - assert (r <= V).
+    { apply sq_le_le; try lra. rewrite Hrr. unfold D. destruct Hd as [(?&?&?&?)|(?&?&?&?)]; nra. }
+    destruct Hd as [(?&?&?&?)|(?&?&?&?)]; subst vf; apply Rabs_le; lra.
+Qed.
+
+(* ---- branch 4: acceleration, deceleration (peak below the limit) *)
+Lemma accdec_alg V vc ac de p0 p1 w0 w1 :
+  let vc2 := (w1 * w1 * ac - w0 * w0 * de - 2 * (p1 - p0) * ac * de) / (ac - de) in
+  dirn (R_sqrt.sqrt vc2) vc ac de (p1 - p0) -> 0 < V -> - V <= w0 <= V -> - V <= w1 <= V ->
+  ~ vc2 <= 0 -> ~ V * V < vc2 ->
+  ~ (w0 * w0 < vc2 /\ vc2 <= w1 * w1) -> ~ (vc2 <= w0 * w0 /\ w1 * w1 < vc2) ->
+  let t1 := (vc - w0) / ac in
+  let pa := p0 + w0 * t1 + / 2 * ac * t1 * t1 in
+  let t := t1 + (w1 - vc) / de in
+  0 <= t1 /\ t1 <= t /\ vc = w0 + ac * t1 /\ pa = p0 + w0 * t1 + ac * t1² / 2 /\
+  w1 = vc + de * (t - t1) /\ p1 = pa + vc * (t - t1) + de * (t - t1)² / 2 /\ Rabs vc <= V.
+Proof.
+  intros vc2 Hd HV Hw0 Hw1 Hc0 Hc1 Hc2 Hc3. intros.
+  assert (Hne : ac <> 0 /\ de <> 0 /\ ac - de <> 0) by (destruct Hd as [(?&?&?&?)|(?&?&?&?)]; repeat split; lra).
+  destruct Hne as (Hac & Hde & Hacde).
+  assert (HD : 0 <= vc2) by lra.
+  pose proof (sqrt_pos vc2) as Hr0. pose proof (sqrt_sqrt vc2 HD) as Hrr.
+  set (r := R_sqrt.sqrt vc2) in *.
+  set (N := w1 * w1 * ac - w0 * w0 * de - 2 * (p1 - p0) * ac * de) in *.
+  assert (HN : N = vc2 * (ac - de)) by (unfold vc2; field; assumption).
+  assert (Hff : vc * vc = vc2) by (destruct Hd as [(?&?&?&?)|(?&?&?&?)]; subst vc; nra).
+  assert (Hrw0 : Rabs w0 <= r).
+  { apply Rnot_lt_le. intros Hlt. assert (vc2 < w0 * w0).
+    { rewrite <- Hrr. pose proof (Rabs_pos w0). replace (w0 * w0) with (Rabs w0 * Rabs w0); [nra|].
+      unfold Rabs; destruct (Rcase_abs w0); ring. }
+    assert (vc2 <= w1 * w1) by (apply Rnot_lt_le; intros ?; apply Hc3; split; lra).
+    unfold N in HN. destruct Hd as [(?&?&?&?)|(?&?&?&?)].
+    + assert (0 <= (p1 - p0) * (ac * - de)) by (apply Rmult_le_pos; nra).
+      assert (vc2 * ac <= w1 * w1 * ac) by nra. assert (vc2 * - de <= w0 * w0 * - de) by nra.
+      assert (vc2 * ac < w1 * w1 * ac \/ vc2 * - de < w0 * w0 * - de) by (first [left; nra|right; nra]). nra.
+    + assert (0 <= - (p1 - p0) * (- ac * de)) by (apply Rmult_le_pos; nra).
+      assert (vc2 * - ac <= w1 * w1 * - ac) by nra. assert (vc2 * de <= w0 * w0 * de) by nra.
+      assert (vc2 * - ac < w1 * w1 * - ac \/ vc2 * de < w0 * w0 * de) by (first [left; nra|right; nra]). nra. }
+  assert (Hrw1 : Rabs w1 <= r).
+  { apply Rnot_lt_le. intros Hlt. assert (vc2 < w1 * w1).
+    { rewrite <- Hrr. pose proof (Rabs_pos w1). replace (w1 * w1) with (Rabs w1 * Rabs w1); [nra|].
+      unfold Rabs; destruct (Rcase_abs w1); ring. }
+    assert (vc2 <= w0 * w0) by (apply Rnot_lt_le; intros ?; apply Hc2; split; lra).
+    unfold N in HN. destruct Hd as [(?&?&?&?)|(?&?&?&?)].
+    + assert (0 <= (p1 - p0) * (ac * - de)) by (apply Rmult_le_pos; nra).
+      assert (vc2 * ac <= w1 * w1 * ac) by nra. assert (vc2 * - de <= w0 * w0 * - de) by nra.
+      assert (vc2 * ac < w1 * w1 * ac \/ vc2 * - de < w0 * w0 * - de) by (first [left; nra|right; nra]). nra.
+    + assert (0 <= - (p1 - p0) * (- ac * de)) by (apply Rmult_le_pos; nra).
+      assert (vc2 * - ac <= w1 * w1 * - ac) by nra. assert (vc2 * de <= w0 * w0 * de) by nra.
+      assert (vc2 * - ac < w1 * w1 * - ac \/ vc2 * de < w0 * w0 * de) by (first [left; nra|right; nra]). nra. }
+  apply Rabs_le_between in Hrw0. apply Rabs_le_between in Hrw1.
+  assert (Ht1 : 0 <= t1).
+  { unfold t1. apply div_sign_nonneg; [assumption|]. destruct Hd as [(?&?&?&?)|(?&?&?&?)]; subst vc; nra. }
+  assert (Ht2 : 0 <= (w1 - vc) / de).
+  { apply div_sign_nonneg; [assumption|]. destruct Hd as [(?&?&?&?)|(?&?&?&?)]; subst vc; nra. }
+  repeat split.
+  - exact Ht1.
+  - unfold t. lra.
+  - unfold t1. field. assumption.
+  - unfold pa, Rsqr. field.
+  - unfold t. field. assumption.
+  - unfold t, pa, t1, Rsqr. apply Rminus_diag_uniq.
+    match goal with |- ?lhs = 0 =>
+      replace lhs with ((vc * vc * (ac - de) - N) / (2 * ac * de)) by (unfold N; field; repeat split; assumption) end.
+    rewrite Hff, HN. field. split; assumption.
+  - assert (r <= V) by (apply sq_le_le; lra).
+    destruct Hd as [(?&?&?&?)|(?&?&?&?)]; subst vc; apply Rabs_le; lra.
+Qed.
+
+(* ------------------------------------------------------------------------------------------------ the generator *)
+(* every division and square root executed by the generator on the path it took is defined *)
+Definition trap_gen_defined (vm ac de p0 p1 v0 v1 : R) (b : trap_branch) : Prop :=
+  let w0 := clampR v0 vm in
+  let w1 := clampR v1 vm in
+  ac - de <> 0 /\ ac <> 0 /\ de <> 0 /\ Rabs vm <> 0 /\
+  (b = TB_acc -> 0 <= w0 * w0 + 2 * (p1 - p0) * ac) /\
+  (b = TB_dec -> 0 <= w0 * w0 + 2 * (p1 - p0) * de) /\
+  (b = TB_accdec -> 0 <= (w1 * w1 * ac - w0 * w0 * de - 2 * (p1 - p0) * ac * de) / (ac - de)).
+
+Definition trap_gen_post (vm ac de p0 p1 v0 v1 : R) (r : trapR * R * trap_branch) : Prop :=
+  let '(c, t, b) := r in
+  0 < t ->
+  WFtrap (Rabs vm) c /\ t = t_t c /\ t_p0 c = p0 /\ t_p1 c = p1 /\ t_v0 c = clampR v0 vm /\
+  t_ac c = ac /\ t_de c = de /\
+  (b = TB_cruise \/ b = TB_accdec -> t_v1 c = clampR v1 vm) /\
+  (b = TB_cruise \/ b = TB_acc \/ b = TB_dec \/ b = TB_accdec) /\
+  trap_gen_defined vm ac de p0 p1 v0 v1 b.
+
+Ltac fin := first [assumption | reflexivity | lra | (apply Rabs_le; lra) | (unfold Rsqr in *; lra) | nra].
+
+Theorem trap_gen_wf c0 vm ac de p0 p1 v0 v1 :
+  vm <> 0 -> trap_feasible ac de p0 p1 ->
+  trap_gen_post vm ac de p0 p1 v0 v1 (trap_gen_b R_ops c0 vm ac de p0 p1 v0 v1).
+Proof.
+  intros Hvm Hf.
+  pose proof (clamp_range v0 vm) as Hw0. pose proof (clamp_range v1 vm) as Hw1.
+  assert (HV : 0 < Rabs vm) by (apply Rabs_pos_lt; assumption).
+  assert (Hne : ac - de <> 0 /\ ac <> 0 /\ de <> 0 /\ Rabs vm <> 0) by (destruct Hf as [(?&?&?)|(?&?&?)]; repeat split; lra).
+  assert (Hdir : exists s : bool, Rltb (p1 - p0) 0 = s /\
+             forall X, dirn X (if s then - X else X) ac de (p1 - p0)).
+  { destruct Hf as [(?&?&?)|(?&?&?)]; [exists false|exists true]; (split; [destruct (Rltb_spec (p1 - p0) 0); [lra||reflexivity|reflexivity||lra]|]);
+      intros X; [left|right]; repeat split; lra. }
+  destruct Hdir as (s & Hrev & Hdir).
+  unfold trap_gen_post, trap_gen_defined.
+  gen_unfold. unfold_ops. rewrite !half_R. rewrite !abs_if. rewrite !Hrev.
   fold (clampR v0 vm). fold (clampR v1 vm).
-  set (V := Rabs vm). set (w0 := clampR v0 vm). set (w1 := clampR v1 vm).
-  Show.
-Abort.
+  set (V := Rabs vm) in *. set (w0 := clampR v0 vm) in *. set (w1 := clampR v1 vm) in *.
+  set (vc2 := (w1 * w1 * ac - w0 * w0 * de - 2 * (p1 - p0) * ac * de) / (ac - de)).
+  destruct (Reqb_spec ac de) as [E|_]; [lra|].
+  destruct (Rleb_spec vc2 0) as [C0|C0]; [intros; lra|].
+  destruct (Rltb_spec (V * V) vc2) as [C1|C1].
+  - (* cruise *)
+    intros Ht.
+    destruct (cruise_alg V (if s then - V else V) ac de p0 p1 w0 w1 (Hdir V) HV Hw0 Hw1 C1)
+      as (A1 & A2 & A3 & A4 & A5 & A6 & A7 & A8 & A9).
+    destruct s; gen_unfold; (split; [constructor; tcbn; fin|]); repeat split; try fin; try discriminate; auto.
+  - destruct (Rltb_spec (w0 * w0) vc2) as [C2|C2]; destruct (Rleb_spec vc2 (w1 * w1)) as [C3|C3]; cbn [andb].
+    + (* acceleration only *)
+      destruct (Rltb_spec (w0 * w0 + 2 * (p1 - p0) * ac) 0) as [C4|C4]; [intros; lra|].
+      intros Ht.
+      destruct (acc_alg V (if s then - R_sqrt.sqrt (w0 * w0 + 2 * (p1 - p0) * ac) else R_sqrt.sqrt (w0 * w0 + 2 * (p1 - p0) * ac))
+                  ac de p0 p1 w0 w1 (Hdir _) HV Hw0 Hw1 C1 C3 C4) as (A1 & A2 & A3 & A4 & A5).
+      destruct s; gen_unfold; (split; [constructor; tcbn; fin|]); repeat split; try fin; try discriminate; auto.
+    + (* peak above both boundary speeds *)
+      destruct (Rleb_spec vc2 (w0 * w0)) as [C5|C5]; [lra|]. cbn [andb].
+      intros Ht.
+      destruct (accdec_alg V (if s then - R_sqrt.sqrt vc2 else R_sqrt.sqrt vc2) ac de p0 p1 w0 w1 (Hdir _) HV Hw0 Hw1 C0 C1)
+        as (A1 & A2 & A3 & A4 & A5 & A6 & A7); [lra|lra|].
+      destruct s; gen_unfold; (split; [constructor; tcbn; fin|]); repeat split; try fin; try discriminate; auto.
+    + destruct (Rleb_spec vc2 (w0 * w0)) as [C5|C5]; destruct (Rltb_spec (w1 * w1) vc2) as [C6|C6]; cbn [andb]; try lra.
+      * (* deceleration only *)
+        destruct (Rltb_spec (w0 * w0 + 2 * (p1 - p0) * de) 0) as [C4|C4]; [intros; lra|].
+        intros Ht.
+        destruct (dec_alg V (if s then - R_sqrt.sqrt (w0 * w0 + 2 * (p1 - p0) * de) else R_sqrt.sqrt (w0 * w0 + 2 * (p1 - p0) * de))
+                    ac de p0 p1 w0 (Hdir _) HV Hw0 C4) as (A1 & A2 & A3).
+        destruct s; gen_unfold; gen_unfold in Ht; (split; [constructor; tcbn; fin|]); repeat split; try fin; try discriminate; auto.
+      * (* both boundary speeds equal the peak: acceleration, deceleration *)
+        intros Ht.
+        destruct (accdec_alg V (if s then - R_sqrt.sqrt vc2 else R_sqrt.sqrt vc2) ac de p0 p1 w0 w1 (Hdir _) HV Hw0 Hw1 C0 C1)
+          as (A1 & A2 & A3 & A4 & A5 & A6 & A7); [lra|lra|].
+        destruct s; gen_unfold; (split; [constructor; tcbn; fin|]); repeat split; try fin; try discriminate; auto.
+    + (* peak above v1 but not above v0 is the deceleration case handled above; here: not above v0, above v1 is false *)
+      destruct (Rleb_spec vc2 (w0 * w0)) as [C5|C5]; destruct (Rltb_spec (w1 * w1) vc2) as [C6|C6]; cbn [andb]; try lra.
+      * destruct (Rltb_spec (w0 * w0 + 2 * (p1 - p0) * de) 0) as [C4|C4]; [intros; lra|].
+        intros Ht.
+        destruct (dec_alg V (if s then - R_sqrt.sqrt (w0 * w0 + 2 * (p1 - p0) * de) else R_sqrt.sqrt (w0 * w0 + 2 * (p1 - p0) * de))
+                    ac de p0 p1 w0 (Hdir _) HV Hw0 C4) as (A1 & A2 & A3).
+        destruct s; gen_unfold; gen_unfold in Ht; (split; [constructor; tcbn; fin|]); repeat split; try fin; try discriminate; auto.
+Qed.
